@@ -2261,8 +2261,10 @@ impl Polynomial<'_, BFieldElement> {
         let mut divisor_coefficients = divisor.coefficients.into_owned();
         if divisor_coefficients.first().is_some_and(Zero::is_zero) {
             // Clean division implies the dividend also has 0 as a root.
-            assert!(dividend_coefficients[0].is_zero());
-            dividend_coefficients.remove(0);
+            assert!(dividend_coefficients.first().is_none_or(Zero::is_zero));
+            if !dividend_coefficients.is_empty() {
+                dividend_coefficients.remove(0);
+            }
             divisor_coefficients.remove(0);
         }
         let dividend = Polynomial::new(dividend_coefficients);
